@@ -195,6 +195,29 @@ func assumed() map[string]bool {
 	return m
 }
 
+// development aid: VERIF_C20_MAYOFF=area,area switches class "may" comments off per grammar area,
+// VERIF_C20_MAYONLY=area,area switches them off everywhere else.
+var allAreas = []string{"syntax", "kv", "import", "importgroup", "typeexpr", "typegroup", "datatype", "field", "emptystruct", "atserver",
+	"servervalue", "servicehead", "emptyservice", "doc", "handler", "route", "routebody", ""}
+
+var mayOffAreas = func() map[string]bool {
+	m := map[string]bool{}
+	for _, a := range strings.Split(os.Getenv("VERIF_C20_MAYOFF"), ",") {
+		if a = strings.TrimSpace(a); a != "" {
+			m[a] = true
+		}
+	}
+	if only := os.Getenv("VERIF_C20_MAYONLY"); only != "" {
+		for _, a := range allAreas {
+			m[a] = true
+		}
+		for _, a := range strings.Split(only, ",") {
+			delete(m, strings.TrimSpace(a))
+		}
+	}
+	return m
+}()
+
 func newGen(t *rapid.T, small bool, assume map[string]bool) *gen {
 	g := &gen{t: t, assume: assume}
 	g.noCmt = g.chance(15, "nocomments")
@@ -202,6 +225,7 @@ func newGen(t *rapid.T, small bool, assume map[string]bool) *gen {
 	g.nlPct = rapid.SampledFrom([]int{30, 50, 10, 80}).Draw(t, "nlpct")
 	g.wild = g.chance(15, "wildws")
 	g.noMay = verifkit.EnvInt("c20_nomay", 0) == 1 || g.chance(25, "nomay")
+	g.mayOff = mayOffAreas
 	if small {
 		g.cmtPct = rapid.SampledFrom([]int{0, 8, 20}).Draw(t, "cmtpct2")
 	}
@@ -261,6 +285,9 @@ func TestVerifC20Valid(t *testing.T) {
 		}
 		st.ClassN("comments", nc)
 		st.ClassN("comments-must-survive", len(must))
+		for a, n := range g.mayAreas {
+			st.ClassN("interior-comments-"+a, n)
+		}
 		st.ClassN("struct-fields", g.fields)
 		st.ClassN("routes", g.routes)
 		st.ClassN("multi-line-block-comments", g.multiDoc)
@@ -483,4 +510,25 @@ func FuzzVerifC20Source(f *testing.F) {
 			st.Class("valid")
 		}
 	})
+}
+
+// TestVerifC20Show is a replay aid: VERIF_C20_SHOW='<source>' prints what the code under test makes
+// of one source (normal form, formatted text, second format, verdict).  Skipped otherwise.
+func TestVerifC20Show(t *testing.T) {
+	src := os.Getenv("VERIF_C20_SHOW")
+	if src == "" {
+		t.Skip("VERIF_C20_SHOW not set")
+	}
+	p := runParseNorm(src)
+	fmt.Printf("parse: err=%v panicked=%q\n%s", p.err, oneLine(p.panicked), p.out)
+	if p.err == nil && p.panicked == "" {
+		f := runFormat(src)
+		fmt.Printf("format: err=%v panicked=%q\n%s\n(quoted %q)\n", f.err, oneLine(f.panicked), f.out, f.out)
+		if f.err == nil && strings.TrimSpace(f.out) != "" {
+			f2 := runFormat(f.out)
+			fmt.Printf("format again: err=%v same=%v\n(quoted %q)\n", f2.err, f2.out == f.out, f2.out)
+		}
+	}
+	v := checkAny(src, nil)
+	fmt.Printf("verdict: ok=%v clause=%q %s\n", v.ok, v.clause, v.detail)
 }
